@@ -352,7 +352,10 @@ func fdFlags(f any) int64 {
 	if !ok {
 		return -1
 	}
-	return fdInfoFlags(int(x.Fd()))
+	if v := fdInfoFlags(int(x.Fd())); v >= 0 {
+		return v
+	}
+	return fcntlFlags(int(x.Fd())) // /proc/self is not readable for a process that changed its user id
 }
 
 func fdInfoFlags(fd int) int64 {
@@ -519,6 +522,7 @@ func childMain(args []string) {
 	wrap := fl.Bool("wrap", true, "")
 	gset := fl.String("gates", "", "")
 	fault := fl.String("fault", "", "p:section:mode:once - the storage write of that section fails")
+	stopped := fl.Bool("stopped", false, "add the torrent stopped (with -fresh)")
 	fl.Parse(args)
 	torrent.DisableLogging()
 	g, err := newGeo(*layout, *unit, *seed)
@@ -564,7 +568,7 @@ func childMain(args []string) {
 	c.sess = sess
 	n := len(sess.ListTorrents())
 	if *fresh {
-		c.tr, err = sess.AddTorrent(bytes.NewReader(g.tor.Bytes), &torrent.AddTorrentOptions{ID: torrentID})
+		c.tr, err = sess.AddTorrent(bytes.NewReader(g.tor.Bytes), &torrent.AddTorrentOptions{ID: torrentID, Stopped: *stopped})
 		if err != nil {
 			c.emit(map[string]any{"ev": "session", "ok": false, "err": "add: " + err.Error()})
 			os.Exit(0)
@@ -639,6 +643,10 @@ type Run struct {
 	RwiMs int    `json:"rwiMs"`
 	Kill  Kill   `json:"kill"`
 	Fault *Fault `json:"fault"` // write fault injected in this life (wrapping provider only)
+	// mode "readd": the session is expected to come up WITHOUT the torrent (record unloadable), the torrent is added again
+	// under the same ID; Damage = how the record is made unloadable before this life ("version" | "info"); Stopped = added stopped
+	Damage  string `json:"damage"`
+	Stopped bool   `json:"stopped"`
 }
 
 // Fault: the storage write of section S (index into the files of piece P, in write order) fails.
@@ -658,11 +666,13 @@ type Scenario struct {
 	Pre    []Pre  `json:"pre"` // data files that exist before the torrent is added
 	Multi  *MultiSpec `json:"multi"` // family "multi": several torrents in one session (multi.go)
 	Move   *MoveSpec  `json:"move"`  // family "move": a torrent is moved into the session (multi.go)
+	Uid    int        `json:"uid"`   // family "owner": the client runs as this (unprivileged) user; planted files with Foreign stay root's
 }
 
 type Pre struct {
 	F    int    `json:"f"` // file ordinal, -1 = every file
 	Kind string `json:"kind"`
+	Foreign bool `json:"foreign"` // the file belongs to another user (root), writable for everybody
 }
 
 type machErr struct{ s string }
@@ -700,6 +710,7 @@ type runner struct {
 	reached  []string
 	faulted  bool // an injected write fault was reported by the child in this life
 	norec    bool // the last inspection found no record of the torrent (legitimate only for a torrent that never got one)
+	foreign  map[string]bool // data files that belong to another user (family "owner")
 }
 
 func (r *runner) abs(e map[string]any) { r.out = append(r.out, e) }
@@ -790,6 +801,15 @@ func (r *runner) spawn(ri int, run Run, fresh bool) (*proc, error) {
 			once = "1"
 		}
 		cmd.Args = append(cmd.Args, "-fault", fmt.Sprintf("%d:%d:%s:%s", f.P, f.S, f.Mode, once))
+	}
+	if run.Stopped {
+		cmd.Args = append(cmd.Args, "-stopped")
+	}
+	if r.sc.Uid != 0 {
+		asUser(cmd, r.sc.Uid)
+		if err := chownTree(r.dir, r.sc.Uid, r.foreign); err != nil {
+			return nil, err
+		}
 	}
 	return startProc(cmd)
 }
@@ -1006,6 +1026,17 @@ func (r *runner) life(ri int, run Run, fresh bool) error {
 					return errStopScenario
 				}
 				r.haveInit = -1
+				if run.Mode == "readd" && num(e, "n") != 0 {
+					return machErr{"re-add: the damaged record was loaded"}
+				}
+			}
+			if ev == "snap" && r.sc.Uid != 0 && !triggered && e["status"] == "Stopped" && e["err"] != nil && e["err"] != "" {
+				// family "owner": the client refused a data file (allocation error): nothing was opened, nothing is claimed
+				r.abs(map[string]any{"ev": "allocfail", "what": fmt.Sprint(e["err"])})
+				point = "refused"
+				kill(0)
+				done = true
+				break
 			}
 			if ev == "snap" {
 				if s, _ := e["err"].(string); s != "" && e["status"] == "Stopped" && !triggered && !r.faulted {
@@ -1120,6 +1151,11 @@ func (r *runner) life(ri int, run Run, fresh bool) error {
 							waitFor = "fault-outcome"
 						}
 					}
+				case "added": // the torrent was added (stopped): the record is written, nothing else happened
+					triggered = true
+					r.reached = append(r.reached, k.Kind)
+					kill(k.DelayUs)
+					done = true
 				case "settled":
 					if r.settled {
 						triggered = true
@@ -1315,12 +1351,32 @@ func runScenario(sc Scenario, work string, slot int) (out []map[string]any, reac
 			}
 			class, exist := g.classes(r.dataDir())
 			r.abs(map[string]any{"ev": "plant", "class": class, "exist": exist})
+			fl := []int{}
+			r.foreign = map[string]bool{}
+			for _, pr := range sc.Pre {
+				for o := range g.files {
+					if pr.Foreign && (pr.F == -1 || pr.F == o) {
+						r.foreign[g.path(r.dataDir(), o)] = true
+						fl = append(fl, o)
+					}
+				}
+			}
+			if len(fl) > 0 {
+				r.abs(map[string]any{"ev": "chown", "files": fl})
+			}
 		}
 		for ri, run := range sc.Runs {
+			if run.Damage != "" {
+				if err = damageRecord(filepath.Join(dir, "session.db"), g.id, run.Damage); err != nil {
+					err = machErr{"damage: " + err.Error()}
+					break
+				}
+				r.abs(map[string]any{"ev": "damage", "kind": run.Damage})
+			}
 			if len(run.Del) > 0 {
 				r.delete(run.Del)
 			}
-			err = r.life(ri, run, ri == 0)
+			err = r.life(ri, run, ri == 0 || run.Mode == "readd")
 			if err != nil {
 				break
 			}
